@@ -12,3 +12,131 @@ Fixpoint lpi_from (k off : Z) (ls : list layer) : list (Z * list Z) :=
   | l :: t => (k, PyPrelude.py_range off (off + layer_n_parameters l)) :: lpi_from (k + 1) (off + layer_n_parameters l) t
   end.
 Definition lpi_of (ls : list layer) : list (Z * list Z) := lpi_from 0 0 ls.
+
+(* the instance attribute that EVQEIndividual.__post_init__ assigns (state record of the translated constructor) *)
+Record ind_cache := mkIndCache { c_lpi : list (Z * list Z) }.
+
+(* ------------------------------------------------------------------ generic: ranges, enumerate, filters *)
+Lemma py_filterM_total {A} (c : A -> result bool) (p : A -> bool) l :
+  (forall x, c x = Ok (p x)) -> py_filterM c l = Ok (filter p l).
+Proof. intros H. induction l as [|x t IH]; [reflexivity|]. cbn [py_filterM filter]. rewrite H, IH. cbn [bind]. destruct (p x); reflexivity. Qed.
+
+Lemma py_range_nat (a c : nat) :
+  PyPrelude.py_range (Z.of_nat a) (Z.of_nat a + Z.of_nat c) = map Z.of_nat (seq a c).
+Proof.
+  unfold PyPrelude.py_range. replace (Z.to_nat (Z.of_nat a + Z.of_nat c - Z.of_nat a)) with c by lia.
+  assert (G : forall s, map (fun k => Z.of_nat a + Z.of_nat k) (seq s c) = map Z.of_nat (seq (a + s) c)).
+  { induction c as [|c IH]; intros s; [reflexivity|]. cbn [seq map]. f_equal; [lia|]. rewrite IH. f_equal. f_equal. lia. }
+  rewrite G, Nat.add_0_r. reflexivity.
+Qed.
+
+Lemma py_len_range_nat (a c : nat) : py_len (PyPrelude.py_range (Z.of_nat a) (Z.of_nat a + Z.of_nat c)) = Z.of_nat c.
+Proof. rewrite py_range_nat. unfold py_len. rewrite map_length, seq_length. reflexivity. Qed.
+
+Lemma mem_range_nat (a c j : nat) :
+  py_mem Z.eqb (Z.of_nat j) (map Z.of_nat (seq a c)) = (Nat.leb a j && Nat.ltb j (a + c))%bool.
+Proof.
+  unfold py_mem. apply eq_true_iff_eq. rewrite existsb_exists, andb_true_iff, Nat.leb_le, Nat.ltb_lt. split.
+  - intros [x [Hin He]]. apply in_map_iff in Hin as [m [<- Hm]]. apply in_seq in Hm. apply Z.eqb_eq in He. lia.
+  - intros [H1 H2]. exists (Z.of_nat j). split; [|apply Z.eqb_refl]. apply in_map. apply in_seq. lia.
+Qed.
+
+(* the items of l whose position lies in [o, o + c), positions counted from s *)
+Lemma window_filter {A} (l : list A) : forall s o c,
+  map snd (filter (fun p : Z * A => py_mem Z.eqb (fst p) (map Z.of_nat (seq o c))) (combine (map Z.of_nat (seq s (length l))) l))
+  = firstn (o + c - Nat.max o s) (skipn (o - s) l).
+Proof.
+  induction l as [|x t IH]; intros s o c.
+  - rewrite skipn_nil, firstn_nil. reflexivity.
+  - cbn [length seq map combine filter fst]. rewrite mem_range_nat.
+    destruct (Nat.leb_spec o s) as [H1|H1]; cbn [andb].
+    + replace (o - s)%nat with O by lia. cbn [skipn].
+      destruct (Nat.ltb_spec s (o + c)) as [H2|H2].
+      * cbn [map snd]. rewrite IH. replace (o - S s)%nat with O by lia. cbn [skipn].
+        replace (o + c - Nat.max o s)%nat with (S (o + c - Nat.max o (S s))) by lia. reflexivity.
+      * rewrite IH. replace (o + c - Nat.max o (S s))%nat with O by lia. replace (o + c - Nat.max o s)%nat with O by lia. reflexivity.
+    + rewrite IH. replace (o - s)%nat with (S (o - S s)) by lia. cbn [skipn]. do 2 f_equal. lia.
+Qed.
+
+Lemma enumerate_window {A} (l : list A) (o c : nat) :
+  map (fun p : Z * A => let '(_, v) := p in v)
+      (filter (fun p : Z * A => let '(k, _) := p in py_mem Z.eqb k (PyPrelude.py_range (Z.of_nat o) (Z.of_nat o + Z.of_nat c))) (py_enumerate l))
+  = firstn c (skipn o l).
+Proof.
+  rewrite py_range_nat. unfold py_enumerate.
+  rewrite (map_ext _ snd) by (intros [? ?]; reflexivity).
+  rewrite (filter_ext _ (fun p : Z * A => py_mem Z.eqb (fst p) (map Z.of_nat (seq o c)))) by (intros [? ?]; reflexivity).
+  rewrite window_filter. rewrite Nat.sub_0_r. f_equal. lia.
+Qed.
+
+(* [l[i] for i in range(o, o + c)] inside the list *)
+Lemma mapM_index_range {A} (l : list A) (o c : nat) : (o + c <= length l)%nat ->
+  mapM (fun k => do it <- PyPrelude.py_index l k; Ok it) (map Z.of_nat (seq o c)) = Ok (firstn c (skipn o l)).
+Proof.
+  revert o. induction c as [|c IH]; intros o H; [reflexivity|].
+  cbn [seq map mapM]. change (PyPrelude.py_index l (Z.of_nat o)) with (Genome.py_index l (Z.of_nat o)). rewrite py_index_nat.
+  destruct (nth_error l o) as [x|] eqn:E; [|apply nth_error_None in E; lia].
+  cbn [bind]. rewrite IH by lia. cbn [bind].
+  assert (S : skipn o l = x :: skipn (S o) l).
+  { clear -E. revert o E. induction l as [|y t IH]; intros [|o] E; simpl in E; try discriminate; [inversion E; reflexivity | exact (IH o E)]. }
+  rewrite S. reflexivity.
+Qed.
+
+(* ------------------------------------------------------------------ layer_parameter_indices *)
+Lemma lpi_from_get ls : forall k0 off k l, nth_error ls k = Some l ->
+  py_dict_get Z.eqb (lpi_from k0 off ls) (k0 + Z.of_nat k)
+  = Ok (PyPrelude.py_range (off + n_params_of (firstn k ls)) (off + n_params_of (firstn k ls) + layer_n_parameters l)).
+Proof.
+  induction ls as [|x t IH]; intros k0 off k l H; [destruct k; discriminate|].
+  destruct k as [|k]; cbn [nth_error] in H.
+  - inversion H; subst. unfold py_dict_get. cbn [lpi_from find fst snd]. rewrite Z.add_0_r, Z.eqb_refl.
+    cbn [firstn]. unfold n_params_of at 1 2. cbn [map sumZ fold_right]. rewrite !Z.add_0_r. reflexivity.
+  - unfold py_dict_get. cbn [lpi_from find fst].
+    replace (k0 =? k0 + Z.of_nat (S k)) with false by (symmetry; apply Z.eqb_neq; lia).
+    fold (py_dict_get Z.eqb (lpi_from (k0 + 1) (off + layer_n_parameters x) t) (k0 + Z.of_nat (S k))).
+    replace (k0 + Z.of_nat (S k)) with (k0 + 1 + Z.of_nat k) by lia.
+    rewrite (IH _ _ k l H). cbn [firstn]. rewrite n_params_of_cons. f_equal. f_equal; lia.
+Qed.
+
+Lemma lpi_get ls k : (k < length ls)%nat ->
+  py_dict_get Z.eqb (lpi_of ls) (Z.of_nat k)
+  = Ok (PyPrelude.py_range (Z.of_nat (layer_offset ls k)) (Z.of_nat (layer_offset ls k) + Z.of_nat (layer_count ls k))).
+Proof.
+  intros H. destruct (nth_error ls k) as [l|] eqn:E; [|apply nth_error_None in E; lia].
+  unfold lpi_of. rewrite <- (Z.add_0_l (Z.of_nat k)). rewrite (lpi_from_get ls 0 0 k l E).
+  unfold layer_offset, layer_count. rewrite E.
+  pose proof (n_params_of_nonneg (firstn k ls)). pose proof (layer_n_parameters_nonneg l).
+  rewrite !Z2Nat.id by lia. rewrite !Z.add_0_l. reflexivity.
+Qed.
+
+(* ------------------------------------------------------------------ the value tuple as the concatenation of the layers' slices *)
+Lemma layer_offset_S ls k : (k < length ls)%nat -> layer_offset ls (S k) = (layer_offset ls k + layer_count ls k)%nat.
+Proof.
+  intros H. destruct (nth_error ls k) as [l|] eqn:E; [|apply nth_error_None in E; lia].
+  unfold layer_offset, layer_count. rewrite E, (n_params_firstn_S k ls l E).
+  pose proof (n_params_of_nonneg (firstn k ls)). pose proof (layer_n_parameters_nonneg l). lia.
+Qed.
+
+Lemma firstn_add_skipn {A} (l : list A) a c : firstn a l ++ firstn c (skipn a l) = firstn (a + c) l.
+Proof.
+  revert l. induction a as [|a IH]; intros l; [reflexivity|]. destruct l as [|x t]; [rewrite !firstn_nil; reflexivity|].
+  cbn [firstn skipn Nat.add app]. rewrite IH. reflexivity.
+Qed.
+
+Lemma slices_concat {V} (i : individual V) : forall m a, (a + m <= length (i_layers i))%nat ->
+  concat (map (layer_values i) (seq a m))
+  = firstn (layer_offset (i_layers i) (a + m) - layer_offset (i_layers i) a) (skipn (layer_offset (i_layers i) a) (i_values i)).
+Proof.
+  induction m as [|m IH]; intros a H.
+  - rewrite Nat.add_0_r, Nat.sub_diag. reflexivity.
+  - rewrite seq_S, map_app, concat_app, IH by lia. cbn [map concat]. rewrite app_nil_r.
+    unfold layer_values at 1.
+    replace (a + S m)%nat with (S (a + m)) by lia. rewrite (layer_offset_S (i_layers i) (a + m)) by lia.
+    assert (M : (layer_offset (i_layers i) a <= layer_offset (i_layers i) (a + m))%nat).
+    { unfold layer_offset. pose proof (firstn_mono_params a (a + m) (i_layers i) ltac:(lia)). lia. }
+    set (oa := layer_offset (i_layers i) a) in *. set (om := layer_offset (i_layers i) (a + m)) in *.
+    set (c := layer_count (i_layers i) (a + m)).
+    replace (skipn om (i_values i)) with (skipn (om - oa) (skipn oa (i_values i)))
+      by (rewrite skipn_skipn_local; f_equal; lia).
+    rewrite firstn_add_skipn. f_equal. lia.
+Qed.
